@@ -113,4 +113,81 @@ def mergeRows : List TRow → List TRow
 
 def timePoints (rows : List Row) : List TRow := mergeRows (sortRows (splitRows rows))
 
+/-! ### per-group structural checks
+`DefValidator.validate_onset_offset/_handle_onset_or_offset` (hed/validator/def_validator.py) -/
+
+/-- a direct child of a top-level group, as far as the structural checks look at it -/
+inductive Child where
+  | anchor (k : MKind)              -- an Onset / Offset / Inset tag
+  | defTag (ext : Str)              -- `Def/ext`
+  | delay                           -- a `Delay/…` tag (ignored by the count)
+  | tag                             -- any other tag
+  | group (defExpands : List Str)   -- a sub-group; the extensions of the Def-expand tags directly in it
+deriving Repr, DecidableEq, Inhabited
+
+inductive ShapeErr where
+  | noDef              -- ONSET_NO_DEF_TAG_FOUND
+  | tooManyDefs        -- ONSET_TOO_MANY_DEFS
+  | wrongNumberGroups  -- ONSET_WRONG_NUMBER_GROUPS
+  | tagOutsideGroup    -- ONSET_TAG_OUTSIDE_OF_GROUP
+  | defUnmatched       -- ONSET_DEF_UNMATCHED
+  | placeholderWrong   -- ONSET_PLACEHOLDER_WRONG
+deriving Repr, DecidableEq, Inhabited
+
+def Child.isGroup : Child → Bool
+  | .group _ => true
+  | _ => false
+
+/-- `find_top_level_tags`: the first direct tag of the group that is a temporal tag, with its position -/
+def firstAnchor (i : Nat) : List Child → Option (MKind × Nat)
+  | [] => none
+  | .anchor k :: _ => some (k, i)
+  | _ :: rest => firstAnchor (i + 1) rest
+
+/-- `find_def_tags` (non-recursive): Def tags and Def-expand groups among the children, each with the
+position of the child that carries it (`def_group`) -/
+def defTagsOf (i : Nat) : List Child → List (Str × Nat)
+  | [] => []
+  | .defTag e :: rest => (e, i) :: defTagsOf (i + 1) rest
+  | .group des :: rest => des.map (fun e => (e, i)) ++ defTagsOf (i + 1) rest
+  | _ :: rest => defTagsOf (i + 1) rest
+
+/-- the children other than the def (group), the anchor tag and Delay tags -/
+def restOf (di ai : Nat) (i : Nat) : List Child → List Child
+  | [] => []
+  | ch :: rest =>
+    if i == di || i == ai || ch == .delay then restOf di ai (i + 1) rest
+    else ch :: restOf di ai (i + 1) rest
+
+/-- Python `str.partition('/')`: (before the first slash, after it) -/
+def partitionSlash (s : Str) : Str × Str := (s.takeWhile (· != '/'), (s.dropWhile (· != '/')).drop 1)
+
+/-- `_handle_onset_or_offset`: `defs` maps a folded definition name to `takes_value` -/
+def handleDef (defs : Str → Option Bool) (fold : Str → Str) (ext : Str) : List ShapeErr :=
+  let (name, ph) := partitionSlash ext
+  match defs (fold name) with
+  | none => [.defUnmatched]
+  | some tv => if tv != !ph.isEmpty then [.placeholderWrong] else []
+
+/-- the body of the loop of `validate_onset_offset` for one top-level group -/
+def groupShapeIssues (defs : Str → Option Bool) (fold : Str → Str) (g : List Child) : List ShapeErr :=
+  match firstAnchor 0 g with
+  | none => []                      -- not a temporal group
+  | some (k, ai) =>
+    match defTagsOf 0 g with
+    | [] => [.noDef]
+    | [(ext, di)] =>
+      let rest := restOf di ai 0 g
+      let maxChildren := if k = .offset then 0 else 1
+      if rest.length > maxChildren then [.wrongNumberGroups]
+      else
+        (match rest with
+          | ch :: _ => if ch.isGroup then [] else [.tagOutsideGroup]
+          | [] => []) ++ handleDef defs fold ext
+    | _ :: _ :: _ => [.tooManyDefs]
+
+/-- `validate_onset_offset` over the top-level groups of a string -/
+def validateOnsetOffset (defs : Str → Option Bool) (fold : Str → Str) (groups : List (List Child)) :
+    List ShapeErr := groups.flatMap (groupShapeIssues defs fold)
+
 end HedVerif.Temporal
